@@ -410,3 +410,17 @@ PROPS["C17"] = {
          "params": {"quick": {"ATTEMPTS": 3}, "thorough": {"ATTEMPTS": 5}}},
     ],
 }
+
+PROPS["C19"] = {
+    "files": EST_FILES + ["root/c19_close.go"], "native_files": ["root/c09_establish_native.go"], "native_cuts": EST_CUTS,
+    "claim": "Close (twice) issued at every scheduling point within the delay bound relative to a request that waits on a region whose "
+             "establisher is before / during / after its lookup, dial and probe (region cached or unknown, address known or not): the "
+             "request returns success or ErrClientClosed; every region client ever created is closed; no goroutine remains; later "
+             "single and batched calls for cached and unknown regions return ErrClientClosed without opening connections.",
+    "outside": "more than one request in flight; the admin (master) client; ZooKeeper lookups (cut); pre-emption inside non-synchronising code",
+    "assumptions": ["(*client).lookupRegion is cut: after Close it answers ErrClientClosed as the real meta lookup does through SendRPC"],
+    "jobs": [
+        {"name": "close_race", "steps": 40000, "timeout_s": {"quick": 400, "thorough": 1800}, "pkg": "root", "entry": "VerifCloseRace", "stubs": EST_STUBS, "reach": ["closed"],
+         "preempts": {"quick": 2, "thorough": 3}, "params": {"quick": {"FAULTS": 0}, "thorough": {"FAULTS": 1}}},
+    ],
+}
